@@ -754,7 +754,7 @@ def gen_malformed(rng):
         f[0] = f[0] + rng.choice(["abc", ".7", " "]).strip()   # numeric prefix is accepted
     if f is not None:
         lines[i] = ",".join(f)
-    head[8] = "|".join(lines)
+    head[8] = "|".join(lines) or "|"
     return head + ["E:0:0"]
 
 
@@ -926,6 +926,8 @@ def monitor(cases, out, ctx):
             f = q.split(":")
             got = d.get("q%d" % i)
             kind = f[0]
+            line1 = " ".join(t[:9] + [q])       # replay: this network and this query only
+            V = lambda key, what, detail=None, line1=line1, q=q, got=got: ctx.violation(key, what, line1, "query %s -> %s" % (q, got))
             if kind in ("W", "K", "D", "R"):
                 start = (int(f[1]), int(f[2]))
                 if kind == "W":
@@ -941,7 +943,7 @@ def monitor(cases, out, ctx):
                 else:
                     dist, jump, site = None, f[3] == "j", "kernel"
                 if kind != "Tk":
-                    monitor_walk(ctx, st, line, net, par, q, got, start, dist, jump, site)
+                    monitor_walk(ctx, st, line1, net, par, q, got, start, dist, jump, site)
                     continue
                 f = ["T", f[1], f[2], "1"]
                 site = "kernel"
